@@ -894,9 +894,15 @@ impl Scenario for ArithProg {
                         let partb = part.to_bytes();
                         let dblf = part.double_full().to_bytes();
                         let dblpp = part.double().to_bytes();
-                        (sum, diff, dbl, dblp, diffv, partb, dblf, dblpp)
+                        // the completed-point doubling of both representations, converted both ways
+                        let mut d11 = p.double_p1p1().to_full().to_bytes().to_vec();
+                        d11.extend_from_slice(&p.double_p1p1().to_partial().to_bytes());
+                        d11.extend_from_slice(&part.double_p1p1().to_full().to_bytes());
+                        d11.extend_from_slice(&part.double_p1p1().to_partial().to_bytes());
+                        (sum, diff, dbl, dblp, diffv, partb, dblf, (dblpp, d11))
                     })
-                    .map(|(s, d, db, dp, dv, pb, df, dpp)| {
+                    .map(|(s, d, db, dp, dv, pb, df, (dpp, d11))| {
+                        obs.out(&d11);
                         obs.out(&s);
                         obs.out(&d);
                         obs.out(&db);
